@@ -327,4 +327,169 @@ theorem fileChunks_mem (rows f : Nat) (cells : List CellRec) (hrows : 1 ≤ rows
   simp only [slice, List.length_take, List.length_drop]
   refine ⟨by omega, by omega, by omega, trivial, by omega⟩
 
+/-! ### the work split -/
+
+/-- total number of rows of a list of chunks -/
+def sizeSum (cs : List Chunk) : Nat := (cs.map (fun c => c.r1 - c.r0)).sum
+
+@[simp] theorem sizeSum_nil : sizeSum [] = 0 := rfl
+@[simp] theorem sizeSum_cons (c : Chunk) (cs : List Chunk) :
+    sizeSum (c :: cs) = (c.r1 - c.r0) + sizeSum cs := by simp [sizeSum]
+theorem sizeSum_append (a b : List Chunk) : sizeSum (a ++ b) = sizeSum a + sizeSum b := by
+  simp [sizeSum]
+
+theorem sizeSum_eq_length (cs : List Chunk) (h : ∀ c ∈ cs, c.cells.length = c.r1 - c.r0) :
+    sizeSum cs = (cs.flatMap (·.cells)).length := by
+  induction cs with
+  | nil => rfl
+  | cons c cs ih =>
+    simp only [sizeSum_cons, List.flatMap_cons, List.length_append]
+    rw [ih (fun c hc => h c (by simp [hc])), h c (by simp)]
+
+theorem sizeSum_fileChunks (rows f : Nat) (cells : List CellRec) (hrows : 1 ≤ rows) :
+    sizeSum (fileChunks rows f cells) = cells.length := by
+  rw [sizeSum_eq_length _ (fun c hc => (fileChunks_mem rows f cells hrows c hc).2.2.1),
+    fileChunks_cells rows f cells hrows]
+
+theorem sizeSum_allChunks (rows : Nat) (files : List (Nat × List CellRec)) (hrows : 1 ≤ rows) :
+    sizeSum (files.flatMap (fun f => fileChunks rows f.1 f.2))
+      = (files.map (fun f => f.2.length)).sum := by
+  induction files with
+  | nil => rfl
+  | cons f files ih =>
+    simp only [List.flatMap_cons, sizeSum_append, List.map_cons, List.sum_cons, ih,
+      sizeSum_fileChunks _ _ _ hrows]
+
+theorem allChunks_pos (rows : Nat) (files : List (Nat × List CellRec)) (hrows : 1 ≤ rows) :
+    ∀ c ∈ files.flatMap (fun f => fileChunks rows f.1 f.2), c.r0 < c.r1 := by
+  intro c hc
+  simp only [List.mem_flatMap] at hc
+  obtain ⟨f, _, hc⟩ := hc
+  exact (fileChunks_mem rows f.1 f.2 hrows c hc).1
+
+theorem le_mul_nPer (nTotal nProc : Nat) (h : 1 ≤ nProc) : nTotal ≤ nProc * nPer nTotal nProc := by
+  have := Nat.lt_mul_div_succ (nTotal + nProc - 1) (show 0 < nProc by omega)
+  simp only [nPer]
+  rw [Nat.mul_add, Nat.mul_one] at this
+  omega
+
+theorem splitLoop_ok (nProc nPer : Nat) :
+    ∀ (cs : List Chunk) (st : SplitState), (∀ c ∈ cs, c.r0 < c.r1) →
+      st.done.length * (nPer + 1) + st.thisN + sizeSum cs ≤ nProc * nPer →
+      ∃ st', splitLoop nProc nPer st cs = .ok st' := by
+  intro cs
+  induction cs with
+  | nil => intro st _ _; exact ⟨st, rfl⟩
+  | cons c cs ih =>
+    intro st hpos hinv
+    have hc : c.r0 < c.r1 := hpos c (by simp)
+    have hpos' : ∀ c ∈ cs, c.r0 < c.r1 := fun c h => hpos c (by simp [h])
+    rw [sizeSum_cons] at hinv
+    have hlt : st.done.length < nProc := by
+      by_contra hn
+      have h1 : nProc * (nPer + 1) ≤ st.done.length * (nPer + 1) :=
+        Nat.mul_le_mul_right _ (by omega)
+      have h2 : nProc * nPer ≤ nProc * (nPer + 1) := Nat.mul_le_mul_left _ (by omega)
+      omega
+    simp only [splitLoop, splitStep, hlt, if_true]
+    by_cases ht : st.thisN + (c.r1 - c.r0) > nPer
+    · simp only [ht, if_true]
+      apply ih _ hpos'
+      simp only [List.length_append, List.length_singleton]
+      rw [Nat.add_mul]
+      omega
+    · simp only [ht, if_false]
+      apply ih _ hpos'
+      simp only
+      omega
+
+theorem splitLoop_spec (nProc nPer : Nat) :
+    ∀ (cs : List Chunk) (st st' : SplitState), splitLoop nProc nPer st cs = .ok st' →
+      (st'.done ++ [st'.cur]).flatten = (st.done ++ [st.cur]).flatten ++ cs ∧
+      (st.done.length + (if st.cur = [] then 0 else 1) ≤ nProc →
+        st'.done.length + (if st'.cur = [] then 0 else 1) ≤ nProc) := by
+  intro cs
+  induction cs with
+  | nil =>
+    intro st st' h
+    simp only [splitLoop, Except.ok.injEq] at h
+    subst h; simp
+  | cons c cs ih =>
+    intro st st' h
+    simp only [splitLoop, splitStep] at h
+    by_cases hlt : st.done.length < nProc
+    · simp only [hlt, if_true] at h
+      by_cases ht : st.thisN + (c.r1 - c.r0) > nPer
+      · simp only [ht, if_true] at h
+        obtain ⟨h1, h2⟩ := ih _ _ h
+        refine ⟨?_, fun _ => h2 ?_⟩
+        · rw [h1]; simp
+        · simp; omega
+      · simp only [ht, if_false] at h
+        obtain ⟨h1, h2⟩ := ih _ _ h
+        refine ⟨?_, fun _ => h2 ?_⟩
+        · rw [h1]; simp
+        · simp; omega
+    · simp [hlt] at h
+
+theorem flatten_filter_nonempty {α : Type} (ls : List (List α)) :
+    (ls.filter (fun l => !l.isEmpty)).flatten = ls.flatten := by
+  induction ls with
+  | nil => rfl
+  | cons l ls ih =>
+    cases l with
+    | nil => simp [ih]
+    | cons a l => simp [ih]
+
+theorem length_filter_nonempty_snoc {α : Type} (ls : List (List α)) (l : List α) :
+    ((ls ++ [l]).filter (fun l => !l.isEmpty)).length ≤ ls.length + (if l = [] then 0 else 1) := by
+  rw [List.filter_append, List.length_append]
+  have := List.length_filter_le (fun l : List α => !l.isEmpty) ls
+  cases l with
+  | nil => simp; omega
+  | cons a l => simp; omega
+
+theorem workSplit_ok (files : List (Nat × List CellRec)) (rows nProc : Nat)
+    (hrows : 1 ≤ rows) (hproc : 1 ≤ nProc) : ∃ loads, workSplit files rows nProc = .ok loads := by
+  have h1 : ¬ nProc = 0 := by omega
+  have h2 : (rows = 0 && !files.isEmpty) = false := by
+    have : ¬ rows = 0 := by omega
+    simp [this]
+  obtain ⟨st', hst⟩ := splitLoop_ok nProc (nPer (files.map (fun f => f.2.length)).sum nProc)
+    (files.flatMap (fun f => fileChunks rows f.1 f.2)) ⟨[], [], 0⟩
+    (allChunks_pos rows files hrows)
+    (by
+      rw [sizeSum_allChunks rows files hrows]
+      have := le_mul_nPer (files.map (fun f => f.2.length)).sum nProc hproc
+      simpa using this)
+  refine ⟨(st'.done ++ [st'.cur]).filter (fun l => !l.isEmpty), ?_⟩
+  simp only [workSplit, h1, h2, if_false, Bool.false_eq_true, hst]
+
+theorem workSplit_spec (files : List (Nat × List CellRec)) (rows nProc : Nat)
+    (loads : List (List Chunk)) (h : workSplit files rows nProc = .ok loads) :
+    loads.flatten = files.flatMap (fun f => fileChunks rows f.1 f.2) ∧
+      loads.length ≤ nProc ∧ ∀ l ∈ loads, l ≠ [] := by
+  simp only [workSplit] at h
+  by_cases h1 : nProc = 0
+  · simp [h1] at h
+  · simp only [h1, if_false] at h
+    by_cases h2 : (rows = 0 && !files.isEmpty) = true
+    · simp [h2] at h
+    · rw [if_neg h2] at h
+      split at h
+      · simp at h
+      · rename_i st hst
+        simp only [Except.ok.injEq] at h
+        subst h
+        obtain ⟨e1, e2⟩ := splitLoop_spec _ _ _ _ _ hst
+        refine ⟨?_, ?_, ?_⟩
+        · rw [flatten_filter_nonempty, e1]; simp
+        · have := length_filter_nonempty_snoc st.done st.cur
+          have := e2 (by simp)
+          omega
+        · intro l hl
+          simp only [List.mem_filter] at hl
+          intro hnil
+          simp [hnil] at hl
+
 end CTM.Stats
